@@ -313,3 +313,17 @@ case("c02-keep-match-bool", "keep", ["C02"], [(SCF, """            Ok(allowed) =
                 }
             }""", """            Ok(true) => Ok(()),
             Ok(false) => Err(Error::BadCodepoint(CodepointInfo::new(cp, offset, val))),""")], "bool matched by pattern")
+
+# ------------------------------------------------------------------ C03
+case("c03-left-right-swapped", "break", ["C03"], [(CTX, "    if !(common::is_left_joining(cp) || common::is_dual_joining(cp)) {", "    if !(common::is_right_joining(cp) || common::is_dual_joining(cp)) {")], "left context tested for right-joining", expect_key=["rule-logic"])
+case("c03-no-dual-after", "break", ["C03"], [(CTX, "    Ok(common::is_right_joining(cp) || common::is_dual_joining(cp))", "    Ok(common::is_right_joining(cp))")], "a dual-joining character after ZWNJ is refused", expect_key=["rule-logic"])
+case("c03-zwj-constant", "break", ["C03", "C02"], [(CTX, "    if 0x200d != s.chars().nth(offset).ok_or(ContextRuleError::Undefined)? as u32 {", "    if 0x200c != s.chars().nth(offset).ok_or(ContextRuleError::Undefined)? as u32 {")], expect_key=["own-set"])
+case("c03-hebrew-after", "break", ["C03"], [(CTX, "    let prev = before(s, offset).ok_or(ContextRuleError::Undefined)?;\n    Ok(common::is_hebrew(prev as u32))", "    let prev = after(s, offset).ok_or(ContextRuleError::Undefined)?;\n    Ok(common::is_hebrew(prev as u32))")], "script of the following character tested", expect_key=["rule-logic"])
+case("c03-digit-range-short", "break", ["C03"], [(CTX, "    let range = 0x06f0..=0x06f9;", "    let range = 0x06f0..=0x06f8;")], "U+06F9 does not count as an extended digit", expect_key=["rule-logic"])
+case("c03-scan-skips-two", "break", ["C03", "C01"], [(CTX, "        next = after(s, i).ok_or(ContextRuleError::Undefined)?;\n        cp = next as u32;\n        i += 1;", "        next = after(s, i).ok_or(ContextRuleError::Undefined)?;\n        cp = next as u32;\n        i += 2;")], "forward scan looks at every other character")
+case("c03-virama-after-scan", "break", ["C03"], [(CTX, "    if common::is_virama(cp) {\n        return Ok(true);\n    }\n\n    // `RegExpMatch`", "    if common::is_virama(cp) && !common::is_transparent(cp) {\n        return Ok(true);\n    }\n\n    // `RegExpMatch`")], "a virama that is also transparent (most are Mn = T) no longer permits ZWNJ directly", expect_key=["rule-logic"])
+case("c03-middle-dot-or", "break", ["C03"], [(CTX, "    Ok(prev as u32 == 0x006c && next as u32 == 0x006c)", "    Ok(prev as u32 == 0x006c || next as u32 == 0x006c)")], expect_key=["rule-logic"])
+case("c03-katakana-first-only", "break", ["C03"], [(CTX, "    for c in s.chars() {\n        let cp = c as u32;\n        if common::is_hiragana(cp) || common::is_katakana(cp) || common::is_han(cp) {\n            return Ok(true);\n        }\n    }\n\n    Ok(false)", "    for c in s.chars() {\n        let cp = c as u32;\n        return Ok(common::is_hiragana(cp) || common::is_katakana(cp) || common::is_han(cp));\n    }\n\n    Ok(false)")], "only the first character of the label is looked at", expect_key=["rule-logic"])
+case("c03-undefined-as-false", "break", ["C03"], [(CTX, "    let after = after(s, offset).ok_or(ContextRuleError::Undefined)?;\n    Ok(common::is_greek(after as u32))", "    let after = match after(s, offset) {\n        Some(c) => c,\n        None => return Ok(false),\n    };\n    Ok(common::is_greek(after as u32))")], "keraia at the end of the label answers false instead of Undefined", expect_key=["rule-logic"])
+case("c03-keep-while-to-loop", "keep", ["C03", "C01"], [(CTX, "    let mut i = offset - 1;\n    while common::is_transparent(cp) {\n        prev = before(s, i).ok_or(ContextRuleError::Undefined)?;\n        cp = prev as u32;\n        i -= 1;\n    }", "    let mut i = offset - 1;\n    loop {\n        if !common::is_transparent(cp) {\n            break;\n        }\n        prev = match before(s, i) {\n            Some(c) => c,\n            None => return Err(ContextRuleError::Undefined),\n        };\n        cp = prev as u32;\n        i -= 1;\n    }")], "while → loop/break, ? → match")
+case("c03-keep-dual-first", "keep", ["C03"], [(CTX, "    if !(common::is_left_joining(cp) || common::is_dual_joining(cp)) {", "    if !common::is_dual_joining(cp) && !common::is_left_joining(cp) {")], "De Morgan, other order")
